@@ -63,10 +63,24 @@ type c13H struct {
 	conn   net.PacketConn
 	closed bool
 	rd     *c13Read // pending read, if any
+	useAP  bool     // read through ReadFromAddrPort when the handle offers it
 }
 
 func c13StartRead(h *c13H) *c13Read {
 	r := &c13Read{}
+	if ap, ok := h.conn.(ice.AddrPortReaderWriter); ok && h.useAP {
+		// the allocation-free path a candidate's receive loop takes when the mux socket offers it
+		go func() {
+			buf := make([]byte, 2048)
+			n, from, err := ap.ReadFromAddrPort(buf)
+			r.data, r.err = append([]byte(nil), buf[:n]...), err
+			if from.IsValid() {
+				r.from = from.String()
+			}
+			r.done.Store(true)
+		}()
+		return r
+	}
 	go func() {
 		buf := make([]byte, 2048)
 		n, from, err := h.conn.ReadFrom(buf)
@@ -105,7 +119,10 @@ func (r *c13Refcount) run() {
 			c.Failf("harness/c13-get", "%v", err)
 			return
 		}
-		hs = append(hs, &c13H{name: fmt.Sprintf("h%d", i), conn: conn})
+		hs = append(hs, &c13H{name: fmt.Sprintf("h%d", i), conn: conn, useAP: t.Bias(1, 2, "addrport-reads")})
+		if _, ok := conn.(ice.AddrPortReaderWriter); ok && hs[i].useAP {
+			c.Probe("handle-reads-via-addrport")
+		}
 	}
 	c.Defer(func() {
 		for _, h := range hs {
@@ -180,6 +197,12 @@ func (r *c13Refcount) run() {
 				return
 			}
 		}
+		if t.Bias(1, 3, "abort-then-close") {
+			// the way a candidate gives up its handle (candidateBase.abortIO): abort pending I/O of this user
+			// by a deadline in the past, then close
+			_ = v.conn.SetDeadline(time.Now())
+			c.Fault("handle-deadline-now-before-close")
+		}
 		err := v.conn.Close()
 		v.closed = true
 		c.Logf("close %s (last=%v) err=%v", v.name, last, err)
@@ -239,6 +262,9 @@ func (r *c13Refcount) run() {
 				return
 			}
 			c.Probe("siblings-usable-after-close")
+			if t.Bias(1, 2, "queued-packet") && !r.stealTest(v, open()) {
+				return
+			}
 			continue
 		}
 		// last handle closed: the underlying connection is released, exactly now
@@ -282,6 +308,70 @@ func (r *c13Refcount) run() {
 		return
 	}
 	c.Probe("fresh-connection-after-release")
+}
+
+// stealTest: with a datagram QUEUED on the shared connection (every open sibling's pending read has been
+// served, one more datagram arrived), a read on the closed handle must fail and must not take the datagram
+// away from the siblings; the next read of an open sibling gets it.
+func (r *c13Refcount) stealTest(v *c13H, open []*c13H) bool {
+	c := r.c
+	var sent [][]byte
+	for i := 0; i <= len(open); i++ {
+		sent = append(sent, r.inbound(fmt.Sprintf("burst %d", i)))
+		synctest.Wait()
+	}
+	got := map[string]bool{}
+	for _, h := range open {
+		if h.rd == nil || !h.rd.done.Load() || h.rd.err != nil {
+			c.Failf("C13/"+r.kind+"/sibling-receive-fails", "burst of %d datagrams for the ufrag: the pending ReadFrom of open handle %s did not return one of them", len(sent), h.name)
+			return false
+		}
+		got[string(h.rd.data)] = true
+		h.rd = nil
+	}
+	var queued []byte
+	for _, p := range sent {
+		if !got[string(p)] {
+			if queued != nil {
+				c.Failf("C13/"+r.kind+"/sibling-receive-fails", "burst of %d datagrams: more than one was not handed to the %d waiting readers", len(sent), len(open))
+				return false
+			}
+			queued = p
+		}
+	}
+	if queued == nil {
+		c.Failf("harness/c13-burst", "no datagram left queued")
+		return false
+	}
+	late := c13StartRead(v)
+	synctest.Wait()
+	if late.done.Load() && late.err == nil {
+		c.Failf("C13/"+r.kind+"/closed-handle-read-takes-sibling-packet", "a read on the closed handle %s returned %d bytes (the datagram queued for its open siblings: %v)", v.name, len(late.data), bytes.Equal(late.data, queued))
+		return false
+	}
+	if !late.done.Load() {
+		c.Failf("C13/"+r.kind+"/closed-handle-read-not-failing", "a read on the closed handle %s blocks although a datagram is queued", v.name)
+		return false
+	}
+	n := 0
+	for _, h := range open {
+		h.rd = c13StartRead(h)
+		synctest.Wait()
+		if h.rd.done.Load() {
+			if h.rd.err != nil || !bytes.Equal(h.rd.data, queued) {
+				c.Failf("C13/"+r.kind+"/sibling-receive-fails", "the datagram queued on the connection was not handed to open handle %s intact (err=%v)", h.name, h.rd.err)
+				return false
+			}
+			n++
+			h.rd = c13StartRead(h)
+		}
+	}
+	if n != 1 {
+		c.Failf("C13/"+r.kind+"/sibling-receive-fails", "the datagram queued on the connection reached %d of the open handles after a read on the closed sibling", n)
+		return false
+	}
+	c.Probe("queued-packet-survives-read-on-closed-sibling")
+	return true
 }
 
 func c13Peer() *net.UDPAddr { return &net.UDPAddr{IP: net.IPv4(192, 0, 2, 9).To4(), Port: 4444} }
